@@ -350,6 +350,12 @@ pub fn check_outcome(o: &Outcome, ovh: usize, vsz: usize) -> Vec<Fail> {
     if let Some(post) = &o.post {
         check_state(post, &mut v);
     }
+    // the capacity rules only need len / capacity / buckets, which light snapshots have too
+    if let (Op::On { op, .. }, Some(pre), Some(post)) = (&o.line.op, &o.pre, &o.post) {
+        if !(pre.full && post.full) && pre.walk_err.is_none() && post.walk_err.is_none() && o.line.panic_at.is_none() && !o.panicked {
+            check_capacity(op, pre, post, o, true, &mut v);
+        }
+    }
     let (op, pre) = match (&o.line.op, &o.pre) {
         (Op::On { op, .. }, Some(pre)) if pre.full && pre.walk_err.is_none() => (op, pre),
         (Op::Clone { .. }, Some(pre)) if pre.full => {
@@ -490,7 +496,7 @@ pub fn check_outcome(o: &Outcome, ovh: usize, vsz: usize) -> Vec<Fail> {
         }
     }
     // capacity rules
-    check_capacity(op, pre, post, o, &mut v);
+    check_capacity(op, pre, post, o, false, &mut v);
     // shared-reference operations change nothing at all
     if op.shared_ref() {
         if HAVE_HOOKS && pre.fingerprint != post.fingerprint {
@@ -503,7 +509,7 @@ pub fn check_outcome(o: &Outcome, ovh: usize, vsz: usize) -> Vec<Fail> {
     v
 }
 
-fn check_capacity(op: &OpKind, pre: &Snap, post: &Snap, o: &Outcome, v: &mut Vec<Fail>) {
+fn check_capacity(op: &OpKind, pre: &Snap, post: &Snap, o: &Outcome, light: bool, v: &mut Vec<Fail>) {
     match op {
         OpKind::Reserve(a) if !o.panicked => {
             if (post.cap as u128) < pre.len as u128 + *a as u128 {
@@ -517,7 +523,7 @@ fn check_capacity(op: &OpKind, pre: &Snap, post: &Snap, o: &Outcome, v: &mut Vec
                 }
             }
             Ret::ResOverflow | Ret::ResAlloc => {
-                if pre.fingerprint != post.fingerprint || pre.cap != post.cap {
+                if (!light && pre.fingerprint != post.fingerprint) || (pre.len, pre.cur, pre.max, pre.cap, pre.bk) != (post.len, post.cur, post.max, post.cap, post.bk) {
                     fail(v, "C13", "a failing try_reserve changed the cache".to_owned());
                 }
             }
